@@ -3,7 +3,7 @@ import ast
 
 from sa import guards as G
 from sa.flow import GuardMap, Provenance
-from sa.repo import AnchorError, call_name, calls_in, dotted, norm, walk_no_nested, kwarg
+from sa.repo import ordk, AnchorError, call_name, calls_in, dotted, norm, walk_no_nested, kwarg
 
 TAB = "annet.annlib.tabparser"
 
@@ -88,7 +88,7 @@ def r1(c):
         dec = [n for n in walk_no_nested(w) if isinstance(n, ast.AugAssign) and isinstance(n.op, ast.Sub) and norm(n.target) == "curr_level"]
         ok = ok and len(pops) == 1 and len(dec) == 1 and any(x is pops[0] for x in ast.walk(dec[0]))
     c.check("C05.R1", ok, repo.loc(m, ded), "_stripped_indents/pop-loop", "the dedent loop does not pop exactly the pushed amounts while curr_level > level", key_text="pop-loop")
-    after = [n for n in ded.body if isinstance(n, ast.If) and loops and n.lineno > loops[0].lineno and any(isinstance(x, ast.Raise) for x in ast.walk(n))]
+    after = [n for n in ded.body if isinstance(n, ast.If) and loops and ordk(n) > ordk(loops[0]) and any(isinstance(x, ast.Raise) for x in ast.walk(n))]
     ok = len(after) == 1
     detail = "no refusal test after the pop loop"
     if ok:
@@ -164,6 +164,69 @@ def r2(c):
     c.check("C05.R2", ok, repo.loc(m, end_y[0]), "_filtered_lines/section-break-needs-marker", "the '#' reset is taken even when '#' is not a comment marker", key_text="marker")
 
 
+def _body_paths(stmts, cursor, key):
+    """paths through a loop body made of if/assignments: -> [(conditions, final value of the cursor, stores)] with abstract values
+    'self' (unchanged), 'child' (cursor[key] read back), 'created' (the object just stored under cursor[key]), 'fresh' (a new empty mapping), 'other'"""
+    def fresh(e):
+        return isinstance(e, ast.Call) and not e.args and not e.keywords and call_name(e) in ("odict", "dict", "OrderedDict", "collections.OrderedDict") or (isinstance(e, ast.Dict) and not e.keys)
+
+    def val(e, env):
+        if isinstance(e, ast.Name):
+            return env.get(e.id, "self" if e.id == cursor else "other")
+        if fresh(e):
+            return "fresh"
+        if isinstance(e, ast.Subscript) and isinstance(e.value, ast.Name) and env.get(e.value.id, "self" if e.value.id == cursor else None) == "self" and norm(e.slice) == key:
+            return "child"
+        if isinstance(e, ast.Call) and isinstance(e.func, ast.Attribute) and e.func.attr == "setdefault" and isinstance(e.func.value, ast.Name) \
+                and env.get(e.func.value.id, "self" if e.func.value.id == cursor else None) == "self" and len(e.args) == 2 and norm(e.args[0]) == key:
+            return "setdefault:" + ("fresh" if fresh(e.args[1]) else "other")
+        return "other"
+    out = []
+
+    def run(stmts, conds, env, stores):
+        for i, st in enumerate(stmts):
+            if isinstance(st, ast.If):
+                for pol, arm in ((True, st.body), (False, st.orelse)):
+                    if not run(list(arm) + list(stmts[i + 1:]), conds + [(st.test, pol)], dict(env), list(stores)):
+                        return False
+                return True
+            if isinstance(st, ast.Assign) and len(st.targets) == 1:
+                t = st.targets[0]
+                if isinstance(t, ast.Name):
+                    v = val(st.value, env)
+                    if v.startswith("setdefault:"):
+                        stores = stores + [("setdefault", v.split(":")[1])]
+                        if v.split(":")[1] != "fresh":
+                            stores = stores + [("child", "other")]
+                        v = "child"
+                    if v == "fresh" and False:
+                        pass
+                    env[t.id] = v
+                    continue
+                if isinstance(t, ast.Subscript) and isinstance(t.value, ast.Name) and env.get(t.value.id, "self" if t.value.id == cursor else None) == "self" and norm(t.slice) == key:
+                    v = val(st.value, env)
+                    stores = stores + [("child", v)]
+                    # names holding that value now denote the stored child
+                    for nm_, vv in list(env.items()):
+                        if isinstance(st.value, ast.Name) and nm_ == st.value.id:
+                            env[nm_] = "created"
+                    env["__stored__"] = "created"
+                    continue
+                return False
+            if isinstance(st, (ast.Pass,)) or (isinstance(st, ast.Expr) and isinstance(st.value, (ast.Constant, ast.Name))):
+                continue
+            return False
+        fin = env.get(cursor, "self")
+        # cursor = cursor[key] read after a store on this path is the created child
+        if fin == "child" and any(k_ == "child" for k_, _ in stores):
+            fin = "created"
+        out.append((conds, fin, stores))
+        return True
+    if not run(list(stmts), [], {}, []):
+        return None
+    return out
+
+
 def r3(c):
     repo = c.repo
     c.rule("C05.R3", "parse_to_tree: walking the path of every line from the root, a key gets a fresh odict only when it is not there yet (`if key not in node: node[key] = odict()` "
@@ -180,31 +243,48 @@ def r3(c):
     if len(inner) != 1 or not isinstance(inner[0].target, ast.Name):
         raise AnchorError("parse_to_tree: inner loop over the path not found")
     key = inner[0].target.id
-    # the cursor: X = X[key]  or  X = X.setdefault(key, odict())
-    cursor = None
-    form = None
+    # the cursor is the variable that is rebound to its own child in the body of the inner loop; enumerate the paths through that body
+    cands = set()
     for n in walk_no_nested(inner[0]):
         if isinstance(n, ast.Assign) and isinstance(n.targets[0], ast.Name):
             x = n.targets[0].id
-            v = n.value
-            if isinstance(v, ast.Subscript) and norm(v) == f"{x}[{key}]":
-                cursor, form, desc = x, "index", n
-            elif isinstance(v, ast.Call) and isinstance(v.func, ast.Attribute) and v.func.attr == "setdefault" and norm(v.func.value) == x and v.args and norm(v.args[0]) == key:
-                cursor, form, desc = x, "setdefault", n
-    if cursor is None:
+            if any(isinstance(y, ast.Name) and y.id == x for y in ast.walk(n.value)):
+                cands.add(x)
+    if len(cands) != 1:
         raise AnchorError("parse_to_tree: descent `node = node[key]` / `node = node.setdefault(key, ...)` not found")
-    c.check("C05.R3", gm.formula(desc) == G.T, repo.loc(m, desc), "parse_to_tree/descend", "the walk does not descend into every key of the path", key_text="descend")
-    if form == "index":
-        st = [n for n in walk_no_nested(inner[0]) if isinstance(n, ast.Assign) and norm(n.targets[0]) == f"{cursor}[{key}]"]
-        ok = len(st) == 1 and G.equivalent(gm.formula(st[0]), G.Not(G.Atom(f"{key} in {cursor}"))) and st[0].lineno < desc.lineno
-        c.check("C05.R3", ok, repo.loc(m, st[0] if st else fn), "parse_to_tree/no-overwrite", "a repeated line overwrites (or does not create) its subtree", key_text="overwrite")
-    else:
-        ok = len(desc.value.args) == 2 and isinstance(desc.value.args[1], ast.Call) and not desc.value.args[1].args
-        c.check("C05.R3", ok, repo.loc(m, desc), "parse_to_tree/no-overwrite", "setdefault does not create an empty subtree for a new key", key_text="overwrite")
+    cursor = cands.pop()
+    paths = _body_paths(inner[0].body, cursor, key)
+    if paths is None:
+        raise AnchorError("parse_to_tree: the body of the walk over a path uses constructs the path enumeration does not know")
+    present = G.Atom("present")
+
+    def cond_formula(conds):
+        env = G.GuardEnv(rename=lambda s_: "present" if s_ in (f"{key} in {cursor}", f"{key} in {cursor}.keys()") else s_)
+        return G.And(*[(G.formula(t, env) if pol else G.Not(G.formula(t, env))) for t, pol in conds])
+    ok_desc, ok_keep, ok_create = True, True, True
+    for conds, final, stores in paths:
+        f = cond_formula(conds)
+        if not G.satisfiable(f):
+            continue
+        created = [v for k_, v in stores if k_ == "child"]
+        # descends: the cursor ends as its own child for this key (the existing one, or the one just stored)
+        if final not in ("child", "created"):
+            ok_desc = False
+        if created:
+            # a store is allowed only when the key was absent, and must store a fresh empty tree
+            if not G.implies(f, G.Not(present)) or not all(v == "fresh" for v in created):
+                ok_keep = False
+        else:
+            # no store: the key must be known to be present (or the store is built into setdefault)
+            if final == "child" and not G.implies(f, present) and not any(k_ == "setdefault" for k_, _ in stores):
+                ok_create = False
+    at = repo.loc(m, inner[0])
+    c.check("C05.R3", ok_desc, at, "parse_to_tree/descend", "the walk does not descend into every key of the path", key_text="descend")
+    c.check("C05.R3", ok_keep and ok_create, at, "parse_to_tree/no-overwrite", "a repeated line overwrites (or does not create) its subtree", key_text="overwrite")
     # the cursor restarts at the root for every path
-    init = [n for n in walk_no_nested(outer[0]) if isinstance(n, ast.Assign) and norm(n.targets[0]) == cursor and n is not desc]
+    init = [n for n in walk_no_nested(outer[0]) if isinstance(n, ast.Assign) and norm(n.targets[0]) == cursor and not any(x is n for x in ast.walk(inner[0]))]
     rets = [n for n in walk_no_nested(fn) if isinstance(n, ast.Return) and n.value is not None]
-    ok = len(init) == 1 and rets and norm(init[0].value) == norm(rets[-1].value) and not any(x is init[0] for x in ast.walk(inner[0]))
+    ok = len(init) == 1 and rets and norm(init[0].value) == norm(rets[-1].value) and gm.formula(init[0]) == G.T and ordk(init[0]) < ordk(inner[0])
     c.check("C05.R3", bool(ok), repo.loc(m, outer[0]), "parse_to_tree/restart-at-root", "the walk of a path does not start at the root of the result tree", key_text="root")
     sk = repo.func(TAB, "_stacked")
     gms = GuardMap(sk)
